@@ -14,7 +14,7 @@ PROP = "C12"
 RULE = ("cases: as C11, rows with |a|>1 (fractional divisions) over-represented; non-trivial: the system is feasible and "
         "tightening changed at least one bound, or the system is infeasible and lb>ub was reported; distinct by digest of (matrix, bounds)"
         ' Also: coefficients -130..130 and the magnitudes 49, 75, 77, 91, ... where reciprocal rounding differs, narrow dtypes, column 0 carrying a boolean variable; all four queries run on one instance, which must be unchanged afterwards.')
-BUDGET = {"quick": (12, 450, 90), "thorough": (16, 4000, 1200)}
+BUDGET = {"quick": (12, 1350, 90), "thorough": (16, 4000, 1200)}
 PYTEST = True     # thorough tier also runs the repository's own tests under these monitors
 MANDATORY = ["judged:tightened-contains-solutions", "judged:never-widens", "judged:lb>ub-only-when-infeasible",
              "judged:row_bounds-exact", "judged:column_bounds=declared", "judged:n_row_combinations",
